@@ -49,17 +49,19 @@ def setup_worker():
 
 def plan(tier):
     if tier == "quick":
-        return [("kvs", {"kind": "kvs"}, 2400, 50), ("tables", {"kind": "tables"}, 700, 25)]
-    return [("kvs", {"kind": "kvs"}, 120000, 200), ("tables", {"kind": "tables"}, 30000, 100)]
+        return [("kvs", {"kind": "kvs"}, 2400, 50), ("tables", {"kind": "tables"}, 700, 25), ("kvs-iofault", {"kind": "kvs", "iofault": 1}, 800, 50)]
+    return [("kvs", {"kind": "kvs"}, 120000, 200), ("tables", {"kind": "tables"}, 30000, 100), ("kvs-iofault", {"kind": "kvs", "iofault": 1}, 40000, 200)]
 
 
 KEYPOOL = ["a", "b", "c", "d/e", "d/f", "g/h/i", "g/h/j", "k k", "l.m"]
 ROOT = "/kv"
 
 
-def _check_cache(cache, fs, violations, when, model_keys, decode):
+def _check_cache(cache, fs, violations, when, model_keys, decode, failed_ok=None):
     total = 0
     for name, info in list(cache.file_futures.items()):
+        if info[0] and name == failed_ok and info[-1].done() and isinstance(info[-1].exception(), OSError):
+            continue        # the load that met the injected read error (iofault configuration only)
         if info[0]:
             violations.append({"sig": "C16:inv:busy-entry-while-idle", "msg": f"{when}: {name} {info[:2]}"})
             continue
@@ -86,7 +88,9 @@ def _check_cache(cache, fs, violations, when, model_keys, decode):
     for fn in heap_names:
         if fn not in cache.file_futures:
             violations.append({"sig": "C16:inv:dangling-lru-item", "msg": f"{when}: {fn}"})
-    for fn in cache.file_futures:
+    for fn, info in cache.file_futures.items():
+        if fn == failed_ok and info[0]:
+            continue
         if heap_names.count(fn) != 1:
             violations.append({"sig": "C16:inv:lru-items-per-entry", "msg": f"{when}: {fn} has {heap_names.count(fn)} LRU items"})
     files = {p[len(ROOT) + 1:] for p in fs.files if p.startswith(ROOT + "/")}
@@ -147,6 +151,23 @@ def scenario(ch, cfg):
     model = {}
     log = []
     state = {"store": None, "since_set": {}}
+    # fault-injecting configuration (kept apart from the fault-free one): ONE transient read error (EIO when a
+    # value file is opened for loading).  Narrow relaxation: from then on a get of THAT key may raise OSError until
+    # the key is set again or the store is reopened (the failed load stays registered - shipped behaviour); it
+    # must never answer :undefined or a wrong value, and everything about the other keys is judged as without a fault.
+    iof = {"at": ch.draw(5, "ioat"), "seen": 0, "fired": False, "key": None} if cfg.get("iofault") else None
+    if iof is not None:
+        import errno as _errno
+
+        def hook(kind, path):
+            if kind == "open" and not iof["fired"]:
+                if iof["seen"] == iof["at"]:
+                    iof["fired"] = True
+                    iof["key"] = path[len(ROOT) + 1:]
+                    stats["fs_fault_read_open_EIO"] += 1
+                    raise OSError(_errno.EIO, "injected I/O error")
+                iof["seen"] += 1
+        fs.fault_hook = hook
 
     def open_store():
         # created the way a user does; the cache limit is a configuration knob of the cache object
@@ -186,6 +207,8 @@ def scenario(ch, cfg):
                         stats["probe_overwrite"] += 1
                     model[key] = expect
                     state["since_set"][key] = set()
+                    if iof is not None and iof["key"] == key:
+                        iof["key"] = None       # the set replaces the failed load: strict again
                 log.append(f"set({key},{lit[:24]})->{res}")
             elif kind in ("get", "getmissing"):
                 key = op[1]
@@ -199,7 +222,9 @@ def scenario(ch, cfg):
                 want = model.get(key, ("undef",))
                 if kind == "getmissing" or key not in model:
                     stats["probe_missing_get"] += 1
-                if res != want:
+                if res != want and iof is not None and iof["key"] == key and res == ("raised", "OSError"):
+                    stats["probe_get_raised_after_read_error"] += 1
+                elif res != want:
                     if key not in model:
                         viol(f"C16:get-missing:{res[1] if res[0] == 'raised' else 'wrong-value'}",
                              f"op {i}: never-set key {key!r} reads {res}; expected :undefined")
@@ -214,6 +239,8 @@ def scenario(ch, cfg):
             elif kind == "reopen":
                 open_store()
                 stats["probe_reopen"] += 1
+                if iof is not None:
+                    iof["key"] = None
                 for s in state["since_set"].values():
                     s.add("reopen")
                 log.append("reopen")
@@ -248,7 +275,8 @@ def scenario(ch, cfg):
                         state["since_set"][key].add("evict")
                         stats["probe_eviction"] += 1
             w.note(log[-1])
-            _check_cache(st.cache, fs, violations, f"after op {i} {log[-1]}", model.keys(), decode)
+            _check_cache(st.cache, fs, violations, f"after op {i} {log[-1]}", model.keys(), decode,
+                         failed_ok=iof["key"] if iof is not None else None)
             if len(violations) > 8:
                 return
 
@@ -292,8 +320,8 @@ def scenario_tables(ch, cfg):
     violations = []
     model = {}
     log = []
-    state = {"store": None, "touched": False}
-    indexed = ch.draw(2, "indexed")     # whole run uses explicit-index tables or positional ones
+    state = {"store": None, "touched": False, "columns": {}}
+    indexed = ch.draw(2, "indexed")    # whole run uses explicit-index tables or positional ones
 
     def open_store():
         klong(f'tbs::.tables("{ROOT}")')
@@ -319,23 +347,44 @@ def scenario_tables(ch, cfg):
         # a wide string column makes the in-memory size (what the cache accounts) comparable to
         # the limit, so that small limits really evict
         strs = [f"{v}".ljust(150, "_") for v in vals]
+        cols = {"a": idx, "b": vals, "s": strs}
+        # tables of one key need not have the same columns: the merge then leaves holes (missing cells) in the
+        # rows that lack a column, and a later table must not fill them ("existing rows win")
+        if ch.draw(3, "colc") == 0:
+            cols["c"] = [v + 1 for v in vals]
+            stats["probe_table_extra_column"] += 1
+        if ch.draw(5, "nob") == 0:
+            del cols["b"]
+            stats["probe_table_missing_column"] += 1
         if indexed and ch.draw(2, "klongtable"):
-            t = Table(pd.DataFrame({"a": idx, "b": vals, "s": strs}))
+            t = Table(pd.DataFrame(cols))
             t.set_index(["a"])          # what .index(t;["a"]) does
             klong._context[KGSym("T")] = t
         else:
-            df = pd.DataFrame({"a": idx, "b": vals, "s": strs}, index=idx if indexed else None)
+            df = pd.DataFrame(cols, index=idx if indexed else None)
             klong._context[KGSym("T")] = Table(df)
-        rows = {(i,): (i, v, s) for i, v, s in zip(idx, vals, strs)}
-        return rows
+        return table_rows(klong._context[KGSym("T")])
+
+    def _cell(x):
+        if isinstance(x, str):
+            return x
+        if x is None or x != x:
+            return None                 # a hole
+        return int(x)
 
     def table_rows(t):
+        """rows as {index: {column: cell}} - holes are None, column order is not compared"""
         df = t.get_dataframe()
         out = {}
+        names = [str(c) for c in df.columns]
         for ix, row in zip(df.index, df.itertuples(index=False)):
             key = tuple(ix) if isinstance(ix, tuple) else (int(ix),)
-            out[tuple(int(x) for x in key)] = tuple((x if isinstance(x, str) else int(x)) for x in row)
+            out[tuple(int(x) for x in key)] = {c: _cell(x) for c, x in zip(names, row)}
         return out
+
+    def with_holes(key):
+        cols = state["columns"].get(key, [])
+        return {ix: {c: row.get(c) for c in cols} for ix, row in model[key].items()}
 
     def run_ops():
         open_store()
@@ -368,12 +417,17 @@ def scenario_tables(ch, cfg):
                         klong._context[KGSym("T")].set("zz", 1)
                         stats["probe_stored_table_mutated_afterwards"] += 1
                     cur = model.setdefault(key, {})
+                    seen = state["columns"].setdefault(key, [])
+                    for row in rows.values():
+                        for c in row:
+                            if c not in seen:
+                                seen.append(c)
                     for ix, row in rows.items():
                         if ix in cur:
                             stats["probe_table_merge_conflict"] += 1
                         else:
                             cur[ix] = row
-                    log.append(f"set({key},{sorted(rows.values())})")
+                    log.append(f"set({key},{[(ix[0], sorted(c for c in r if c != 's'), r.get('b', r.get('c'))) for ix, r in sorted(rows.items())]})")
                 except BaseException as e:   # noqa
                     if isinstance(e, SystemExit):
                         raise
@@ -391,7 +445,9 @@ def scenario_tables(ch, cfg):
                     if isinstance(e, SystemExit):
                         raise
                     res = ("raised", type(e).__name__)
-                want = model.get(key, ("undef",))
+                want = with_holes(key) if key in model else ("undef",)
+                if key in model and any(v is None for r in want.values() for v in r.values()):
+                    stats["probe_table_with_holes_read"] += 1
                 if key not in model:
                     stats["probe_missing_get"] += 1
                 if res != want:
